@@ -11,14 +11,16 @@
 (*   of exactly Depth calls (or ending in a broken state) as one JSON      *)
 (*   line, exhaustively (breadth first) or for random walks (-simulate).   *)
 (***************************************************************************)
-EXTENDS IndexWrapper, Json
+EXTENDS IndexWrapper, Json, Randomization
 
 CONSTANTS MCN,        \* number of samples
           MaxLen,     \* longest index list
           Alphabet,   \* "tiny" | "narrow" | "mid" | "wide"
           Prefits,    \* subset of {"none", "fit", "fitbase"}
           CfgSel,     \* "all" | "core" (flags that are inert for a kind left FALSE)
-          Depth
+          Depth,
+          Sample      \* 0: generator offers every call; k > 0: random walks (-simulate)
+                      \* choose among calls built from k random argument records
 
 VARIABLE done
 mvars == <<vars, done>>
@@ -95,10 +97,23 @@ Bound  == TLCGet("level") <= Depth + 1       \* the initial state has level 1
 MCView == <<Native, SU, cfg.eu, cfg.initY, cfg.initW, cfg.prefit, core, status, last, done>>
 
 \* generator: calls only (predictions are observed by the driver after every
-\* call), and Emit prints a behaviour once it is complete
+\* call), and Emit prints a behaviour once it is complete.  Random walks
+\* draw their arguments from the wide alphabet; they start with a precompute
+\* when the speed-up is in effect (otherwise nothing could be predicted) and
+\* prefer fit while nothing is fitted.
+FullPre == [F |-> AllS, P |-> AllS, fp |-> "all", pp |-> "all"]
+GenOps ==
+    IF Sample = 0 THEN Ops
+    ELSE IF SU /\ hist = <<>>
+    THEN {PreOp(FullPre)} \cup {PreOp(p) : p \in RandomSubset(1, MCPreArgs)}
+    ELSE LET A == RandomSubset(Sample, MCArgs)
+             B == RandomSubset(1, MCArgs)
+         IN {FitOp(a, sb) : a \in A, sb \in BOOLEAN}
+            \cup {PFOp(a, ub, sb) : a \in (IF fitted THEN A ELSE B), ub \in BOOLEAN, sb \in BOOLEAN}
+            \cup {PreOp(p) : p \in RandomSubset(1, MCPreArgs)}
 Complete == Len(hist) >= Depth \/ status = "broken"
 GenNext == \/ /\ ~done /\ ~Complete
-              /\ \E op \in Ops : Call(op)
+              /\ \E op \in GenOps : Call(op)
               /\ UNCHANGED done
            \/ /\ ~done /\ Complete
               /\ PrintT(ToJson([cfg |-> cfg, hist |-> hist]))
